@@ -689,6 +689,11 @@ def run(chk, db, tier):
     sub.rule("R7", "event pump totality: no character-data event is dropped")
     sub.guard("R6", c13.rule_r6, db)
     sub.guard("R7", c13.rule_r7, db)
+    # ... and for the members bound to the URI path: the parsers cut bucket and key out of the path without touching their characters
+    from . import c12
+    sub12 = Sub(chk, "C12")
+    sub12.rule("R7", "verbatim key: the bucket and key stored in S3Path are pieces of the URI path cut from the front; no operation on the way drops or rewrites characters")
+    sub12.guard("R7", c12.rule_r7, db)
 
 
 META = {
